@@ -640,7 +640,19 @@ pub fn replay(sc: &Value) -> Value {
             }
             "wait_enter" => {
                 let want = sh.finished.load(Ordering::SeqCst) + 1;
-                let _ = wait_until(|| sh.entered.lock().unwrap().len() >= want, 1500);
+                let inside = wait_until(|| sh.entered.lock().unwrap().len() >= want, 1500);
+                if inside {
+                    // the wrapped sink holds a metric now (it stays there until the next `release`): nothing of the
+                    // library is pending on the worker, so drained() must already count every metric handed over
+                    if let Some(h) = handles.first() {
+                        let handed = sh.entered.lock().unwrap().len();
+                        let same = wait_until(|| h.drained() as usize == handed, 300);
+                        if !same {
+                            viol.push(json!({"prop": "C15", "clause": "drained-counts-handed", "detail": format!(
+                                "drained() = {} while the wrapped sink is holding metric number {} (handed over, not yet returned)", h.drained(), handed)}));
+                        }
+                    }
+                }
             }
             "release_unwind" => {
                 HOLD_UNWIND.store(false, Ordering::SeqCst);
